@@ -9,6 +9,7 @@ The inputs handed to the model are the element type's sizeof / alignof and its s
 with <type_traits> only, plus the declaration code that the *category* of the element type says (what its source text
 declares), so nothing of the model's input comes from the code under test."""
 import os, re, subprocess, sys, time
+from concurrent.futures import ThreadPoolExecutor
 from vlib import common as C
 
 PROPERTY = 'C17'
@@ -80,6 +81,51 @@ def compile_cmd(job):
 # ------------------------------------------------------------------------------------------------------
 # running the matrix
 # ------------------------------------------------------------------------------------------------------
+OUT_CACHE = os.path.join(C.BUILD, 'c17out')
+
+def build_and_run(job):
+    """compile one shard from the current headers and run it; returns (stdout | None, log).
+    The printed matrix is cached under build/c17out keyed by a hash of /repo's headers, the harness source and the flags; the
+    binary itself is removed after its run, so that the (shared, pruned) build/h cache is not flooded by hundreds of shards."""
+    srcp = os.path.join(C.HARNESS_DIR, job['src'])
+    key = C.sha(C.headers_hash(), C.file_hash([srcp]), job['compiler'], job['std'], ' '.join(job['defs']), ' '.join(job['extra']))[:24]
+    os.makedirs(OUT_CACHE, exist_ok=True)
+    cache = os.path.join(OUT_CACHE, f"{job['name']}_{key}.txt")
+    if os.path.exists(cache):
+        return open(cache).read(), ''
+    log = ''
+    for attempt in (0, 1):
+        path, log = C.build_harness(**job)
+        if path is None:
+            return None, log
+        try:
+            p = C.sh([path])
+        except FileNotFoundError:      # pruned by a concurrent check between build and run: build again
+            continue
+        try:
+            os.remove(path)
+        except OSError:
+            pass
+        if p.returncode != 0:
+            return None, f'matrix binary: exit code {p.returncode}: {p.stderr[-300:]}'
+        tmp = cache + f'.tmp{os.getpid()}'
+        with open(tmp, 'w') as f:
+            f.write(p.stdout)
+        os.replace(tmp, cache)
+        return p.stdout, log
+    return None, 'matrix binary disappeared twice between build and run'
+
+def prune_out_cache(max_files=4000):
+    try:
+        files = sorted((os.path.getmtime(os.path.join(OUT_CACHE, f)), f) for f in os.listdir(OUT_CACHE))
+    except OSError:
+        return
+    for _, f in files[:-max_files]:
+        try:
+            os.remove(os.path.join(OUT_CACHE, f))
+        except OSError:
+            pass
+
 def parse_output(text):
     """returns (info, elems {(cat,s,a): dict}, cells [dict]) or raises ValueError"""
     keys = {}
@@ -255,7 +301,7 @@ class Findings:
     def add(self, group, desc, text):
         g = self.by.setdefault(group, {'n': 0, 'cells': []})
         g['n'] += 1
-        if len(g['cells']) < 4:
+        if len(g['cells']) < 6:
             g['cells'].append((desc, text))
 
 def evaluate(cfgs, ctx=None, only=None):
@@ -268,19 +314,17 @@ def evaluate(cfgs, ctx=None, only=None):
         js = shard_jobs(cfg)
         jobs += js
         owner += [cfg] * len(js)
-    results = C.build_many(jobs)
+    with ThreadPoolExecutor(max_workers=C.JOBS) as ex:
+        results = list(ex.map(build_and_run, jobs))
     t_build = time.time() - t0
     errors = []
     runs = []
-    for job, cfg, (path, log) in zip(jobs, owner, results):
-        if path is None:
+    for job, cfg, (out, log) in zip(jobs, owner, results):
+        if out is None:
             errors.append((job, cfg, log))
             continue
-        p = C.sh([path])
         try:
-            if p.returncode != 0:
-                raise ValueError(f'exit code {p.returncode}: {p.stderr[-300:]}')
-            info, elems, cells = parse_output(p.stdout)
+            info, elems, cells = parse_output(out)
             if info.get('ptr') != '8':
                 raise ValueError('not an LP64 target: ' + str(info))
         except ValueError as ex:
@@ -319,11 +363,11 @@ def evaluate(cfgs, ctx=None, only=None):
                     continue
                 stats['fields_model'] += 1
                 if e[f] != mv:
-                    mism.add('model:' + f, desc, f'field {f}: compiler={e[f]} model={mv} (element: decl={e["decl"]} trivially_copyable={e["tc"]})')
+                    mism.add(f, desc, f'[model] field {f}: compiler={e[f]} model={mv} (element: decl={e["decl"]} trivially_copyable={e["tc"]})')
             for f, v, exp, why in direct_elem(e):
                 stats['fields_direct'] += 1
                 if v != exp:
-                    mism.add('direct:' + f, desc, f'field {f}: compiler={v} property={exp} ({why})')
+                    mism.add(f, desc, f'[property] field {f}: compiler={v} expected={exp} ({why})')
         for c in cells:
             if only is not None and (c['cat'], c['s'], c['a'], c['N'], c['st']) not in only:
                 continue
@@ -341,40 +385,46 @@ def evaluate(cfgs, ctx=None, only=None):
                      ('trVec', 'trVec'), ('trSv', 'trSv'), ('trFcv', 'trFcv'), ('dfTR', 'trFcv'), ('dfST', 'sst'),
                      ('vecMC', 'vecMC'), ('vecMA', 'vecMA'), ('vecSW', 'vecSW'), ('svMC', 'svMC'), ('svMA', 'svMA'),
                      ('svSW', 'svSW'), ('fcvMC', 'fcvMC'), ('fcvMA', 'fcvMA'), ('fcvSW', 'fcvSW')]
-            if c['N'] > 0:
-                pairs += [('fcvTD', 'fcvTD'), ('dfTD', 'fcvTD')]
+            pairs += [('fcvTD', 'fcvTD'), ('dfTD', 'fcvTD')]
             for cf, mf in pairs:
                 if c[cf] == -1:
                     continue
                 stats['fields_model'] += 1
                 if c[cf] != m[mf]:
-                    mism.add('model:' + cf, desc, f'field {cf}: compiler={c[cf]} model={m[mf]} (sizeof T={c["szT"]} alignof T={c["alT"]} '
+                    mism.add(cf, desc, f'[model] field {cf}: compiler={c[cf]} model={m[mf]} (sizeof T={c["szT"]} alignof T={c["alT"]} '
                              f'decl={e["decl"]} tc={e["tc"]} nmc={e["nmc"]} nma={e["nma"]} nsw={e["nsw"]} td={e["td"]})')
             if c['dfST'] in (1, 2, 4, 8):
                 md = model[model_line_cell(c, e, c['dfST'])]
                 for cf, mf in (('dfS', 'fcvS'), ('dfA', 'fcvA')):
                     stats['fields_model'] += 1
                     if c[cf] != md[mf]:
-                        mism.add('model:' + cf, desc, f'field {cf} (default size_type of {c["dfST"]} bytes): compiler={c[cf]} model={md[mf]}')
+                        mism.add(cf, desc, f'[model] field {cf} (default size_type of {c["dfST"]} bytes): compiler={c[cf]} model={md[mf]}')
             for f, v, ok, why in direct_cell(c, e):
                 stats['fields_direct'] += 1
                 if not ok:
-                    mism.add('direct:' + f, desc, f'field {f}: compiler={v} violates the property: {why}')
+                    mism.add(f, desc, f'[property] field {f}: compiler={v} violates: {why}')
             for f, v, exp in fcv_dtor_checks(c, e):
                 stats['fields_direct'] += 1
                 if v != exp:
                     txt = (f'field {f}: is_trivially_destructible<FixedCapacityVector<T,{c["N"]}>>={v} but '
                            f'is_trivially_destructible<T>={exp}')
-                    if c['N'] == 0 and v == 0:
-                        dev.add('fcv0', desc, txt)
-                    else:
-                        mism.add('direct:' + f, desc, txt + ' (trivially destructible exactly when T is)')
+                    mism.add(f, desc, '[property] ' + txt + ' (trivially destructible exactly when T is)')
     return mism, dev, stats, errors
+
+# root causes first: a wrong element trait explains wrong container traits and noexcept values, a wrong vector size explains
+# a broken SmallVector inequality
+FIELD_ORDER = ['harness', 'trT', 'trPairTI', 'trPairIT', 'trPairTT', 'trPairTN', 'trPairNest', 'vecS', 'vecA', 'svS', 'svA', 'fcvS',
+               'fcvA', 'dfS', 'dfA', 'dfST', 'svST', 'fcvTD', 'dfTD', 'trVec', 'trSv', 'trFcv', 'dfTR', 'trFsVec', 'trFsVecNC', 'trFsSv',
+               'trFsSvNC', 'trFsFcv', 'trSsStd', 'trSsFs', 'trSsFsNC', 'trSsFsSv', 'vecMC', 'vecMA', 'vecSW', 'svMC', 'svMA', 'svSW',
+               'fcvMC', 'fcvMA', 'fcvSW']
 
 def replay_text(group, g, jobs_hint):
     lines = [f'rule={group} failing_cells={g["n"]} (first {len(g["cells"])} shown)']
+    last = None
     for desc, text in g['cells']:
-        lines.append('cell ' + desc)
+        if desc != last:
+            lines.append('cell ' + desc)
+            last = desc
         lines.append('  ' + text)
     lines.append('# replay: python3 tools/check.py --property C17 --replay <this file>   (rebuilds exactly these cells from the')
     lines.append('# current headers, prints compiler and model values)')
@@ -399,6 +449,7 @@ def run(ctx):
     ctx.assume('Model/Layout.lean is hand-written after the headers (the translator does not emit these formulas); it is tied to '
                'the code by this cell-by-cell comparison only')
     mism, dev, st, errors = evaluate(cfgs, ctx)
+    prune_out_cache()
     ctx.count('evaluations', st['cells'] + st['elem_lines'])
     ctx.count('distinct_nontrivial', len(st['nontrivial']))
     ctx.coverage['distinct_cells'] = len(st['distinct'])
@@ -417,8 +468,8 @@ def run(ctx):
     if st['model_error']:
         ctx.violation('Lean model evaluator failed', st['model_error'], found_input=False)
     ctx.coverage['exhaustive'] = bool(not errors and not st['model_error'])
-    for group, g in sorted(mism.by.items(), key=lambda kv: (-kv[1]['n'], kv[0])):
-        what = f"{group}: {g['n']} cell(s) disagree, e.g. {g['cells'][0][0]}: {g['cells'][0][1]}"
+    for group, g in sorted(mism.by.items(), key=lambda kv: (FIELD_ORDER.index(kv[0]) if kv[0] in FIELD_ORDER else 999, kv[0])):
+        what = f"field {group}: {g['n']} disagreement(s), e.g. {g['cells'][0][0]}: {g['cells'][0][1]}"
         ctx.violation(what[:400], replay_text(group, g, None), found_input=True, signature={'rule': group})
         ctx.hist('failing_rules', group, g['n'])
     if dev.by:
@@ -445,13 +496,20 @@ def run(ctx):
 def replay(ctx, path):
     txt = open(path).read()
     cells = re.findall(r'^cell std=(\S+) compiler=(\S+) cat=(\d+) s=(\d+) a=(\d+)(?: N=(\d+) st=(\d+))?', txt, re.M)
+    m = re.search(r'^rule=(\S+)', txt, re.M)
+    rule = m.group(1) if m else None
     if not cells:
         print('replay file names no cell (it names an obligation that no longer checks):')
         print(txt[:3000])
         return 1
     C.lake_build(['AmcVerif.Model.Layout'])
     still = 0
-    for std, comp, cat, s, a, n, stb in cells:
+    seen = set()
+    for cell in cells:
+        if cell in seen:
+            continue
+        seen.add(cell)
+        std, comp, cat, s, a, n, stb = cell
         cfg = dict(std=std, compiler=comp, types=[(int(cat), int(s), int(a))], ns=[int(n)] if n else [1], sts=[int(stb)] if stb else [4],
                    per_shard=1)
         mism, dev, st, errors = evaluate([cfg])
@@ -461,10 +519,19 @@ def replay(ctx, path):
             print('  build/run failed: ' + log[-800:]); still += 1
         if st['model_error']:
             print('  ' + st['model_error']); still += 1
-        for group, g in list(mism.by.items()) + list(dev.by.items()):
-            for desc, text in g['cells']:
-                print(f'  [{group}] {text}')
-                still += 1
+        groups = dict(mism.by)
+        if rule == 'fcv0-dtor':
+            groups.update({'fcv0-dtor': dev.by['fcv0']} if 'fcv0' in dev.by else {})
+        other = []
+        for group, g in groups.items():
+            if rule is None or group == rule:
+                for desc, text in g['cells']:
+                    print(f'  {text}')
+                    still += 1
+            else:
+                other.append(group); still += g['n']
+        if other:
+            print('  other fields of this cell that disagree: ' + ' '.join(sorted(other)))
     if still:
         print(f'REPLAY: still fails ({still} disagreement(s))')
         return 1
